@@ -871,6 +871,25 @@ def check_uri_shape(wire, c, e, vals, uri):
     return None
 
 
+def force_optional_headers(g, ir):
+    """Every service lab has optional<string> header arguments (direct and through an alias of an optional, when the
+    definition has one): added to the first two endpoints of each service before generation."""
+    import ir as irb
+    alias_opt = None
+    for d in g.types:
+        if d.kind == "alias" and d.alias["type"] == "optional" and d.alias["optional"]["itemType"] == irb.prim("STRING"):
+            alias_opt = d.ref()
+            break
+    for s in ir["services"]:
+        for k, e in enumerate(s["endpoints"][:2]):
+            names = {a["argName"].lower() for a in e["args"]}
+            ids = {a["paramType"]["header"]["paramId"].lower() for a in e["args"] if a["paramType"]["type"] == "header"}
+            if "verifoptheader" in names or "verif-opt" in ids:
+                continue
+            t = alias_opt if (alias_opt is not None and k == 1) else irb.opt(irb.prim("STRING"))
+            e["args"].append(irb.arg("verifOptHeader", t, "header", "Verif-Opt"))
+
+
 def services_stage(prop, tier, seed, replay):
     import wire
     from gen import LabGen, Profile
@@ -884,6 +903,7 @@ def services_stage(prop, tier, seed, replay):
         cfg = {"exhaustive": i % 2 == 1, "serialize_empty": rr.random() < 0.5, "strip": rr.choice([None, "com.verif", "com.verif.lab"])}
         g = LabGen(cs, Profile(n_types=25, services=3, errors=0, hostile_names=True))
         ir = g.ir()
+        force_optional_headers(g, ir)
         labs.append((cs, cfg, g, ir))
         specs.append({"name": "svc%d" % i, "ir": ir, "cfg": cfg, "drive": True, "driver": lab.driver_source(ir, cfg, registry=False, services=True)})
     res = lab.build_labs("svc-%s" % tier, specs)
@@ -904,14 +924,15 @@ def services_stage(prop, tier, seed, replay):
                 for k in range(5 if tier == "quick" else 20):
                     for flavour in ("sync", "async"):
                         args, vals, ok = {}, {}, True
+                        hostile_headers = (r.random() < 0.2) and prop == "C04"      # header texts HTTP cannot carry: refused, never delivered altered
                         for a in e["args"]:
                             kind = a["paramType"]["type"]
                             t = a["type"]
                             if kind == "header":
-                                # HTTP can carry only visible ASCII as header text
-                                def hs(cc, p, _o=orig_scalar):
+                                # HTTP can carry only visible ASCII as header text; other texts (one call in five) must be refused
+                                def hs(cc, p, _o=orig_scalar, _h=hostile_headers):
                                     if p == "STRING":
-                                        return ("str", visible_ascii(cc.r))
+                                        return ("str", cc.r.choice(["\u00e9", "caf\u00e9", "\u65e5\u672c", "a\u00e9b", "x\u007f", "line\nbreak", "\u0000"]) if _h else visible_ascii(cc.r))
                                     return _o(cc, p)
                                 wire.gen_scalar = hs
                             try:
@@ -948,14 +969,20 @@ def services_stage(prop, tier, seed, replay):
                             else:
                                 script[e["endpointName"]] = wire.render(c, rv, rt_, wire.Style())
                             ret = (rv, rt_)
+                        headers_ok = True
+                        for an, (v, t, kind) in vals.items():
+                            if kind == "header":
+                                u = wire.unalias(v)
+                                items = ([] if u[1] is None else [u[1]]) if u[0] == "opt" else [v]
+                                headers_ok = headers_ok and all(all(0x20 <= ord(ch) < 0x7f for ch in plain_text(wire, x)) for x in items)
                         cid = len(cases) + 1
                         cases.append({"id": cid, "ty": "%s/%s" % (sn, flavour), "op": "call", "method": lab.snake(e["endpointName"]), "args": args, "script": script})
-                        info[cid] = (sn, e, flavour, vals, token, ret, script)
+                        info[cid] = (sn, e, flavour, vals, token, ret, script, headers_ok)
         results = lab.run_lab(res, name, cases)
         if "__crash__" in results:
             rep["violations"].append(violation("lab-services", cs, "lab-crashed", {"crash": results["__crash__"]}))
             continue
-        for cid, (sn, e, flavour, vals, token, ret, script) in info.items():
+        for cid, (sn, e, flavour, vals, token, ret, script, headers_ok) in info.items():
             out = results.get(cid) or {}
             rep["evaluations"] += 1
             kinds = sorted(set(k for (_, _, k) in vals.values()))
@@ -980,7 +1007,18 @@ def services_stage(prop, tier, seed, replay):
                     det["mismatch"] = bad
                     fail("uri:" + bad.split(":")[0])
                 continue
+            if "ok" not in result and not headers_ok and prop == "C04":
+                # a header value that is not visible ASCII may be refused by the client or the server, but then nothing was delivered
+                rep["matrix"]["lab-call/%s/refused-unrepresentable-header" % flavour] = rep["matrix"].get("lab-call/%s/refused-unrepresentable-header" % flavour, 0) + 1
+                if calls:
+                    fail("error-after-delivery")
+                continue
             if "ok" not in result:
+                # a body larger than the endpoint's server-limit-request-size is rightly refused (C06); nothing was delivered then
+                clen = [int(v) for k, v in out.get("request_headers", []) if k == "content-length" and v.isdigit()]
+                if clen and clen[0] > endpoint_limit(e) and result.get("err") == "service:InvalidArgument" and not calls:
+                    rep["matrix"]["lab-call/%s/refused-oversize-body" % flavour] = rep["matrix"].get("lab-call/%s/refused-oversize-body" % flavour, 0) + 1
+                    continue
                 fail("call-failed")
                 continue
             if len(calls) != 1 or calls[0]["endpoint"] != e["endpointName"]:
